@@ -26,7 +26,7 @@ func init() {
 	fw.Register(&fw.Prop{
 		ID:     "C12",
 		Builds: []string{"default", "386"}, // the 386 build runs a quarter of the random classes on a 32-bit target
-		Rule: "lane (hook level): message lengths 8..65536 and targets t such that lx = len*t spans 8..2^64-1 including 3^k-1, 3^k, 3^k+1, the 64-bit edge and lx uniform in [3^40, 2^64) where 3^41 no longer fits 64 bits; s and T are obtained from the real sufficientTrailingZeros/targetHash exactly as Mine does (not asserted); 64-lane bit-plane states with lanes drawn from: random trits, exactly s-2, s-1, s, s+1, 243 trailing zeros, s-1 zeros with hash in {T-1, T, T+1}, hashes whose difficulty equals lx exactly / lx+1 / lx-1, all-zero and all-(-1) hashes, placed at lane 0, lane 63, several lanes, no lane. Oracle: a returned lane i < 64 must have difficulty floor(3^243/h_i) >= lx; a return of 64 means no lane has difficulty > lx. toint: toInt(trits) == 1 + sum d_i 3^i. score: Score(msg) == min(floor(d/len), 2^64-1) with d from the model hash. mine: Mine(1 worker, len*t from 8 up to 3^10 so that scans cover hundreds of 64-nonce blocks) must return a nonce with Score >= t and no nonce in the 64-blocks before the returned one's block may have difficulty > lx (every skipped nonce is re-hashed by a bit-sliced 64-lane model that is self-tested against the single-lane one); Mine(2..16 workers) soundness; t = 0 returns at once. shared: two demanding Mine calls (lx just below a power of three) and a looping easy one run concurrently on ONE *Worker; every returned nonce must meet its own target. " +
+		Rule: "lane (hook level): message lengths 8..65536 and targets t such that lx = len*t spans 8..2^64-1 including 3^k-1, 3^k, 3^k+1, the 64-bit edge and lx uniform in [3^40, 2^64) where 3^41 no longer fits 64 bits; s and T are obtained from the real sufficientTrailingZeros/targetHash exactly as Mine does (not asserted); 64-lane bit-plane states with lanes drawn from: random trits, exactly s-2, s-1, s, s+1, 243 trailing zeros, s-1 zeros with hash in {T-1, T, T+1}, hashes whose difficulty equals lx exactly / lx+1 / lx-1, all-zero and all-(-1) hashes, placed at lane 0, lane 63, several lanes, no lane. Oracle: a returned lane i < 64 must have difficulty floor(3^243/h_i) >= lx; a return of 64 means no lane has difficulty > lx. toint: toInt(trits) == 1 + sum d_i 3^i. score: Score(msg) == min(floor(d/len), 2^64-1) with d from the model hash. mine: Mine(1 worker, len*t from 8 up to 3^10 so that scans cover hundreds of 64-nonce blocks) must return a nonce with Score >= t and no nonce in the 64-blocks before the returned one's block may have difficulty > lx (every skipped nonce is re-hashed by a bit-sliced 64-lane model that is self-tested against the single-lane one); Mine(2..16 workers) soundness; t = 0 returns at once; bigmine: the same with data of 8 KiB..128 KiB whose length is within 72 of m*2^j (j = 13..16, m = 1..2), targets 1..3, 1..8 workers. shared: two demanding Mine calls (lx just below a power of three) and a looping easy one run concurrently on ONE *Worker; every returned nonce must meet its own target. " +
 			"Non-trivial: lane cases that reach the big-integer comparison (a lane with exactly s-1 zeros and none with s), mine cases whose scan covered at least one full block, all toint cases with a non-zero high chunk.",
 		Assumptions: []string{"BLAKE2b-256 (x/crypto), math/big", "the Curl-P-81 / b1t6 model in harness/oracle/curlp (self-tested)", "Score's big-integer fall-back (difficulty >= 2^64) needs a hash with >= 41 trailing zeros and is unreachable through Score; only toInt is checked on such vectors"},
 		SelfTest:    curlp.SelfTest,
@@ -41,6 +41,8 @@ func init() {
 				return map[string]interface{}{"seed": fw.GetU64(p[0]), "style": p[1][0]}
 			case "score":
 				return map[string]interface{}{"msg": fw.Hex(p[0])}
+			case "bigmine":
+				return map[string]interface{}{"data": fmt.Sprintf("%d bytes derived from seed %d", fw.GetU32(p[1]), fw.GetU64(p[0])), "target": fw.GetU64(p[2]), "workers": p[3][0]}
 			case "reuse":
 				return map[string]interface{}{"seed": fw.GetU64(p[0]), "scenario": "six consecutive Mine calls on one Worker, message kept in one buffer edited in place between the calls"}
 			case "shared":
@@ -48,7 +50,7 @@ func init() {
 			}
 			return map[string]interface{}{"data": fw.Hex(p[0]), "target": fw.GetU64(p[1]), "workers": p[2][0]}
 		},
-		Required:      []string{"lane returned<64 sound", "lane returned 64 and nothing passed over", "lane reached big-int stage", "toint ok", "score ok", "mine ok", "reuse executions", "shared-worker executions", "mine blocks scanned", "lane: candidate with difficulty == lx"},
+		Required:      []string{"lane returned<64 sound", "lane returned 64 and nothing passed over", "lane reached big-int stage", "toint ok", "score ok", "mine ok", "mine with data of 8 KiB .. 128 KiB", "reuse executions", "shared-worker executions", "mine blocks scanned", "lane: candidate with difficulty == lx"},
 		WatchdogQuick: 900,
 		StallClass:    map[string]int{"lane": 30, "toint": 30, "score": 30}, // pure arithmetic on one input: microseconds
 	})
@@ -156,6 +158,11 @@ func judge(class string, key []byte, o *fw.Obs) {
 			return
 		}
 		o.Count("score ok")
+	case "bigmine": // a mine case whose data (8 KiB .. 128 KiB) is derived from a seed
+		d := make([]byte, int(fw.GetU32(p[1])))
+		fw.SubRng(int64(fw.GetU64(p[0])), "c12-bigmine").Read(d)
+		o.Count("mine with data of 8 KiB .. 128 KiB")
+		judgeMine(d, fw.GetU64(p[2]), int(p[3][0]), o)
 	default:
 		judgeMine(p[0], fw.GetU64(p[1]), int(p[2][0]), o)
 	}
@@ -646,6 +653,11 @@ func gen(g *fw.Gen) {
 		l := g.Rng.Intn(60)
 		lx := 19683 + g.Rng.Intn(40000)
 		g.Emit("mine", fw.Pack(g.Bytes(l), fw.U64(uint64(lx/(l+8))), []byte{1}))
+	}
+	// data of 8 KiB .. 128 KiB, lengths next to m * 2^j (j = 13..16, m = 1..2), target 1..3
+	for n := g.ShareOf(48, 2400); n > 0; n-- {
+		l := (1+g.Rng.Intn(2))<<uint(13+g.Rng.Intn(4)) + g.Rng.Intn(145) - 72
+		g.Emit("bigmine", fw.Pack(fw.U64(g.Rng.Uint64()), fw.U32(uint32(l)), fw.U64(uint64(1+g.Rng.Intn(3))), []byte{byte(1 + g.Rng.Intn(8))}))
 	}
 	// API level
 	for n := g.ShareOf(250, 6000); n > 0; n-- {
